@@ -12,6 +12,7 @@ struct C19 {
 	std::deque<std::pair<int, std::string>> expect;     // (opcode, payload) the echo endpoint must return, in order
 	std::string frag; int frag_op = 0; bool frag_comp = false; bool in_frag = false;
 	uint64_t echoed = 0;
+	bool stray_sent = false, stray_closed = false;   // a FIN continuation frame that continues nothing was sent: RFC 6455 5.4 makes it a protocol error (1002)
 	~C19() { if (def_init) deflateEnd(&def); if (inf_init) inflateEnd(&inf); }
 };
 
@@ -155,6 +156,12 @@ void World::c19_send(Client &cl, const Op &op) {
 	if (!cl.c19 || !cl.c19->checked) { probe("c19_send_before_handshake_answer"); return; }
 	C19 &c = *cl.c19;
 	if (c.broken) return;
+	if (op.a.getb("stray")) {
+		std::string b = ws_frame(0, hexdec(op.a.gets("hex")).substr(0, 20), true, true, (uint32_t)mix64(plan.seed, op.uid), 0, 0);
+		c.stray_sent = true; probe("c19_stray_continuation_sent");
+		send_from_client(cl, b, op.a.get("seg"), (uint64_t)op.a.getd("gap", 0), op.uid);
+		return;
+	}
 	std::string msg = hexdec(op.a.gets("hex"));
 	int opcode = op.a.getb("bin") ? 2 : 1;
 	bool comp = c.negotiated && !op.a.getb("plain");
@@ -204,7 +211,15 @@ void World::c19_on_frame(Client &cl, const Frame &f) {
 	if (f.t == Frame::HTTP) return;
 	if (f.masked) violation("C12", "server-frame-masked", "server sent a masked frame");
 	if (!f.minimal) violation("C12", "non-minimal-length", "server frame length is not minimally encoded");
-	if (f.wsop >= 8) { probe("ws_ctrl_from_daemon:" + std::to_string(f.wsop)); if (f.rsv) violation("C19", "compressed-control-frame", "server control frame with RSV bits set"); return; }
+	if (f.wsop >= 8) {
+		probe("ws_ctrl_from_daemon:" + std::to_string(f.wsop)); if (f.rsv) violation("C19", "compressed-control-frame", "server control frame with RSV bits set");
+		if (f.wsop == 8 && c.stray_sent && !c.broken && !cl.no_expect && c.expect.empty()) {
+			int st = f.raw.size() >= 2 ? (((unsigned char)f.raw[0]) << 8) | (unsigned char)f.raw[1] : 0;
+			if (st != 1002) violation("C12", "wrong-close-status", "a continuation frame that continues nothing was answered with close status " + std::to_string(st) + " instead of 1002");
+			c.stray_closed = true; probe("c19_stray_continuation_refused");
+		}
+		return;
+	}
 	if (c.broken || cl.no_expect) return;
 	if (f.rsv & ~4) violation("C19", "reserved-bits", "server data frame with RSV2/RSV3 set");
 	if ((f.rsv & 4) && !c.negotiated) violation("C19", "compressed-without-negotiation", "server sent a compressed frame although permessage-deflate was not negotiated");
@@ -219,6 +234,7 @@ void World::c19_on_frame(Client &cl, const Frame &f) {
 		if (!c19_inflate(c, c.frag, msg)) violation("C19", "undecodable-message", "connection c" + std::to_string(cl.idx) + ": a compressed message from the server does not inflate (" + std::to_string(c.frag.size()) + " bytes: " + hexenc(c.frag.substr(0, 24)) + ")");
 		probe("c19_compressed_message_received");
 	} else msg = c.frag;
+	if (c.expect.empty() && c.stray_sent) violation("C12", "stray-continuation-processed", "connection c" + std::to_string(cl.idx) + ": a FIN continuation frame sent after a completed message (it continues nothing) was handed to the application, which echoed " + std::to_string(msg.size()) + " bytes; the connection had to be failed with status 1002");
 	if (c.expect.empty()) violation("C19", "unsolicited-message", "connection c" + std::to_string(cl.idx) + " received a message (" + std::to_string(msg.size()) + " bytes) that echoes nothing it sent");
 	auto want = c.expect.front(); c.expect.pop_front();
 	if (want.first != c.frag_op || want.second != msg) {
@@ -234,6 +250,9 @@ void World::c19_quiescent() {
 		if (!cl.c19 || cl.no_expect || cl.c19->broken) continue;
 		if (!cl.accepted || cl.client_closed) continue;
 		if (!q.empty()) continue;
+		if (cl.c19->stray_sent && cl.c19->expect.empty() && !cl.c19->stray_closed && !cl.daemon_closed && cl.space < 0 && cl.chunks_queued == 0)
+			violation("C12", "stray-continuation-not-refused", "connection c" + std::to_string(cl.idx) + ": a FIN continuation frame that continues nothing was neither answered with a close frame nor was the connection released");
+		if (cl.c19->stray_sent) continue;
 		if (cl.daemon_closed && !cl.c19->expect.empty())
 			violation("C19", "connection-dropped", "connection c" + std::to_string(cl.idx) + " was closed by the server although it only sent valid messages (" + std::to_string(cl.c19->expect.size()) + " still unanswered)");
 		if (!cl.daemon_closed && !cl.c19->expect.empty() && cl.space < 0 && cl.chunks_queued == 0)
